@@ -16,7 +16,17 @@ Inductive pcase :=
 (* Plan(segs, o) with Options.ScoreSegments = the synthetic integer score syn_score k *)
 | CPlanS (o : options) (segs : list (Z * Z * Z)) (p : Z) (out : option (list (list Z)))
 (* CalcBudget(total, first, {MaxSegmentsPerTier: M, TierGrowth: g}) = out *)
-| CBudget (total first M : Z) (g : Q) (out : Z).
+| CBudget (total first M : Z) (g : Q) (out : Z)
+(* a plan made by the merger of a real index.Writer (harness/engines/plan_writer.go): segs = the persisted
+   segments (id, Count, Count - #deleted) of the root current at the CalcBudget call, log / bargs as in
+   CPlanT, tasks = the merges of persisted segments introduced before the merger's progress event, each as
+   the ascending list of the ids of its old segments *)
+| CPlanW (o : options) (segs : list (Z * Z * Z)) (log : list (list Z * Z)) (bargs : option (Z * Z * Z))
+         (tasks : list (list Z))
+(* one merge introduction of a real writer: all segments of the root before it, the id of the new segment
+   (Writer.nextSegmentID after the increment), the ids of the merged segments, all segments of the root
+   after it  =  Plan.apply_task *)
+| CApply (before : list (Z * Z * Z)) (newid : Z) (old : list Z) (after : list (Z * Z * Z)).
 
 Definition mk (t : Z * Z * Z) : seg := let '(i, f, l) := t in mkseg i f l.
 
@@ -102,6 +112,17 @@ Definition bargs_ok (o : options) (l : list seg) (bargs : option (Z * Z * Z)) : 
       match budget_of o (sort_segs l) with Ok b' => b' =? b | _ => false end
   end.
 
+Fixpoint insert_z (x : Z) (l : list Z) : list Z :=
+  match l with
+  | [] => [x]
+  | h :: t => if x <? h then x :: l else h :: insert_z x t
+  end.
+Definition sort_z (l : list Z) : list Z := fold_right insert_z [] l.
+
+Definition seg3_eqb (a b : Z * Z * Z) : bool :=
+  let '(a1, a2, a3) := a in let '(b1, b2, b3) := b in (a1 =? b1) && (a2 =? b2) && (a3 =? b3).
+Definition un3 (s : seg) : Z * Z * Z := (seg_id s, seg_full s, seg_live s).
+
 Definition check (c : pcase) : bool :=
   match c with
   | CPlanT o segs log bargs out =>
@@ -113,6 +134,26 @@ Definition check (c : pcase) : bool :=
       && bargs_ok o' l bargs
   | CPlanS o segs p out =>
       plan_out_eqb (plan (syn_score p) (Some o) (map mk segs)) out
+  | CPlanW o segs log bargs tasks =>
+      let l := map mk segs in
+      let score := table_score (index_log log) in
+      match plan_with score o l with
+      | Ok (Some ts) => zzlist_eqb (map (fun t => sort_z (ids t)) ts) tasks
+      | _ => false
+      end
+      && zzlist_eqb (map ids (plan_trace score o l)) (map fst log)
+      && bargs_ok o l bargs
+  | CApply before newid old after =>
+      (* old segments that an earlier introduction already dropped (LiveSize 0) are not in `before`; when none is
+         left the task is non-empty for merge.go all the same (id incremented, nothing merged): a placeholder *)
+      let segs := map mk before in
+      let task := filter (fun s => existsb (Z.eqb (seg_id s)) old) segs in
+      match old with
+      | [] => false
+      | _ =>
+          let '(segs', next') := apply_task (segs, newid - 1) (match task with [] => [mkseg (-1) 0 0] | _ => task end) in
+          list_eqb seg3_eqb (map un3 segs') after && (next' =? newid)
+      end
   | CBudget total first M g out =>
       match calc_budget total first M g with
       | Ok b => b =? out
